@@ -107,6 +107,7 @@ func (c04) Plan(tier string, seed int64) []mon.Workload {
 		{Name: "literal-fresh", N: int64(len(c18Literals) * len(c18LitWrites) * 2), Exhaustive: true},
 		{Name: "computed-keys", N: int64(len(c04KeyStmts) * len(c04KeyWraps)), Exhaustive: true},
 		{Name: "decoded-twice", N: int64(len(c04JSONTexts) * len(c04JSONUses)), Exhaustive: true},
+		{Name: "tuple-assign", N: int64(len(c04TupleSetups) * len(c04TupleStmts)), Exhaustive: true},
 	}
 }
 
@@ -362,11 +363,90 @@ func (c04) build(c *mon.Ctx, workload string, i int64) c04Case {
 }
 
 func (k c04) Describe(c *mon.Ctx, workload string, i int64) any {
+	if workload == "tuple-assign" {
+		return map[string]any{"source": c04TupleText(i), "interpreter": "v2"}
+	}
 	cs := k.build(c, workload, i)
 	return map[string]any{"source": gt.Print(gt.ParenthesizeStmts(cs.Stmts), nil)}
 }
 
+// tuple-assign (exhaustive, v2 - v1 has no multiple assignment): the targets
+// and sources of one `l1, l2 = r1, r2` name the same elements through
+// negative indices, nested paths and aliases; every source is read before
+// any target is written, and the writes land in the shared containers.
+var c04TupleSetups = []string{
+	"a = [1, 2, 3]\nb = a\nm = {\"x\": [10, 20], \"y\": 5}\nn = m[\"x\"]\nc = 0\n",
+	"a = [[1, 2], [3, 4], [5]]\nb = a[0]\nm = {\"x\": a, \"y\": b}\nn = a\nc = [0]\n",
+}
+var c04TupleStmts = []string{
+	"a[0], a[-1] = a[-1], a[0]\n",
+	"a[0], c = 9, b[0]\n",
+	"a[0], a[1] = a[1], a[0]\n",
+	"b[0], a[-1] = a[-1], b[0]\n",
+	"m[\"x\"], n[0] = n[0], m[\"x\"]\n",
+	"m[\"x\"][0], n[1] = n[1], m[\"x\"][0]\n",
+	"a, b = b, a\n",
+	"a, b[0] = [7], a[1]\n",
+	"c, a[0] = a[0], c\n",
+	"m[\"y\"], m[\"z\"] = m[\"x\"], m[\"y\"]\n",
+	"a[1], a[1] = a[0], a[1]\n",
+	"a[-1], c, b[-1] = b[0], a[-1], a[1]\n",
+	"n, m[\"x\"] = m[\"y\"], n\n",
+	"a[0], a[0] = 1, a[0]\n",
+	"c, c = a[0], c\n",
+	"b, c = c, len(b)\n",
+}
+
+func c04TupleText(i int64) string {
+	return c04TupleSetups[int(i)%len(c04TupleSetups)] + c04TupleStmts[int(i)/len(c04TupleSetups)] + "p(a, b, m, n, c)\n"
+}
+
+// runV2Text runs one program text on the v2 interpreter against the v2
+// flavour of the reference semantics.
+func runV2Text(c *mon.Ctx, tag, text string) {
+	o := drive.Parse(tag, text)
+	if o.Err != nil {
+		panic(tag + ": program does not parse: " + text + ": " + o.Err.Error())
+	}
+	l, err := gt.FromStmts(o.Stmts)
+	if err != nil {
+		panic(err)
+	}
+	stmts := gt.ParenthesizeStmts(gt.CloneStmts(l))
+	src := gt.Print(stmts, nil)
+	name := tag + ".p"
+	prog := &ref.Program{Scripts: map[string][]*gt.T{name: stmts}, Funcs: ref.ProbeFuncs(), V2: true}
+	mo := ref.Run(prog, name, nil, modelBudget)
+	info := map[string]any{"source": src}
+	if mo.TooBig || mo.Unspecified != "" {
+		c.Count("not_compared_unspecified", 1)
+		c.Cell("unspecified_reasons", mo.Unspecified)
+		return
+	}
+	c.Nontrivial(src)
+	script, lerr := drive.LoadV2(name, src)
+	c.Eval(1)
+	if lerr != nil {
+		if mo.Err == nil {
+			c.Violate("valid-program-rejected:"+tag, fmt.Sprintf("rejected at load: %v\n%s", lerr, src), info)
+		}
+		return
+	}
+	ro := drive.RunV2(script, &drive.RunState{Budget: realBudget(mo.Shared.Steps)})
+	c.Count("compared", 1)
+	if mo.Err != nil {
+		c.Count("reference_says_error", 1)
+	}
+	if r := compareRun(ro, mo, cmpOpts{V2: true}); r != nil {
+		c.Violate(r.Class+":"+tag, fmt.Sprintf("%s\n--- program (v2)\n%s", r.Detail, src), info)
+	}
+}
+
 func (k c04) Run(c *mon.Ctx, workload string, i int64) {
+	if workload == "tuple-assign" {
+		runV2Text(c, "tuple-assign", c04TupleText(i))
+		return
+	}
 	cs := k.build(c, workload, i)
 	stmts := gt.ParenthesizeStmts(cs.Stmts)
 	src := gt.Print(stmts, nil)
